@@ -3155,7 +3155,8 @@ fn strip_nulls_object(header: u32, value: &[u8]) -> Result<ObjectBuilder<'_>, Er
 /// Possible types are object, array, string, number, boolean, and null.
 pub fn type_of(value: &[u8]) -> Result<&'static str, Error> {
     if !is_jsonb(value) {
-        return match value.first() {
+        // skip the leading whitespace of the `JSON` text.
+        return match value.iter().find(|v| !v.is_ascii_whitespace()) {
             Some(v) => match v {
                 b'n' => Ok(TYPE_NULL),
                 b't' | b'f' => Ok(TYPE_BOOLEAN),
